@@ -115,6 +115,29 @@ Proof.
     + (* d = b ++ d2 *) subst d. apply (H a b d2); [exact Epm|exact Hdel].
 Qed.
 
+(* one-step equations of the scan (kept as separate small lemmas: the kernel re-checks them quickly) *)
+Lemma go_nil num ff nf i : find_free_go [] num ff nf i = Ok (true, if nf =? 0 then i else ff).
+Proof. reflexivity. Qed.
+Lemma go_cons_end s r num ff nf i : byte_at s 0 = 0 ->
+  find_free_go (s :: r) num ff nf i = Ok (true, if nf =? 0 then i else ff).
+Proof. intros E. cbn [find_free_go]. rewrite is_end_decode, E. reflexivity. Qed.
+Lemma go_cons_del s r num ff nf i : byte_at s 0 = 229 -> nf + 1 <= 4294967295 -> i + 1 <= 4294967295 ->
+  find_free_go (s :: r) num ff nf i =
+  if nf + 1 =? num then Ok (false, if nf =? 0 then i else ff)
+  else find_free_go r num (if nf =? 0 then i else ff) (nf + 1) (i + 1).
+Proof.
+  intros E H1 H2. cbn [find_free_go]. rewrite is_end_decode, is_deleted_decode, E. cbn [N.eqb Pos.eqb].
+  unfold u32_add, u32_max. apply N.leb_le in H1. apply N.leb_le in H2. rewrite H1. cbn [bind].
+  destruct (nf + 1 =? num); [reflexivity|]. rewrite H2. reflexivity.
+Qed.
+Lemma go_cons_used s r num ff nf i : byte_at s 0 <> 0 -> byte_at s 0 <> 229 -> i + 1 <= 4294967295 ->
+  find_free_go (s :: r) num ff nf i = find_free_go r num ff 0 (i + 1).
+Proof.
+  intros E0 E5 H2. cbn [find_free_go]. rewrite is_end_decode, is_deleted_decode.
+  apply N.eqb_neq in E0. apply N.eqb_neq in E5. rewrite E0, E5.
+  unfold u32_add, u32_max. apply N.leb_le in H2. rewrite H2. reflexivity.
+Qed.
+
 (* the scan: first fit.  [pre ++ mid] is what has been looked at, [mid] the current deleted run *)
 Lemma find_free_go_first num : 1 <= num -> forall cur pre mid ff nf i ae p,
   Forall nonend pre -> Forall isdel mid -> len_N mid < num -> boundary pre -> no_del_run (pre ++ mid) num ->
@@ -127,42 +150,45 @@ Lemma find_free_go_first num : 1 <= num -> forall cur pre mid ff nf i ae p,
      else len_N mid' = num /\ no_del_run (pre' ++ removelast mid') num).
 Proof.
   intros Hnum. induction cur as [|s r IH]; intros pre mid ff nf i ae p Hpre Hmid Hlt Hb Hnr Hff Hnf Hi Hbound Hgo.
-  - cbn [find_free_go] in Hgo. injection Hgo as <- <-. exists pre, mid, []. split; [reflexivity|].
-    split; [|split; [assumption|split; [assumption|split; [assumption|split; [assumption|split; [left; reflexivity|assumption]]]]]].
-    subst nf i. destruct mid as [|m0 mid']; [cbn [len_N length N.of_nat N.eqb]; unfold len_N; lia|].
-    replace (len_N (m0 :: mid') =? 0) with false by (symmetry; apply N.eqb_neq; rewrite len_N_cons; lia).
-    symmetry. apply Hff. discriminate.
-  - cbn [find_free_go] in Hgo. rewrite is_end_decode, is_deleted_decode in Hgo.
+  - rewrite go_nil in Hgo.
     assert ((if nf =? 0 then i else ff) = len_N pre) as Eff.
-    { subst nf i. destruct mid as [|m0 mid']; [cbn [len_N length N.of_nat N.eqb]; unfold len_N; lia|].
+    { subst nf i. destruct mid as [|m0 mid']; [rewrite len_N_nil; rewrite N.eqb_refl; lia|].
+      replace (len_N (m0 :: mid') =? 0) with false by (symmetry; apply N.eqb_neq; rewrite len_N_cons; lia).
+      apply Hff. discriminate. }
+    rewrite Eff in Hgo. injection Hgo as <- <-. exists pre, mid, []. split; [reflexivity|].
+    split; [reflexivity|]. split; [assumption|]. split; [assumption|]. split; [assumption|].
+    split; [assumption|]. split; [left; reflexivity|assumption].
+  - assert ((if nf =? 0 then i else ff) = len_N pre) as Eff.
+    { subst nf i. destruct mid as [|m0 mid']; [rewrite len_N_nil; rewrite N.eqb_refl; lia|].
       replace (len_N (m0 :: mid') =? 0) with false by (symmetry; apply N.eqb_neq; rewrite len_N_cons; lia).
       apply Hff. discriminate. }
     assert (len_N pre + len_N mid + 1 <= 134217728) as Hbd.
     { rewrite !len_N_app, len_N_cons in Hbound. lia. }
-    destruct (byte_at s 0 =? 0) eqn:E0.
-    + apply N.eqb_eq in E0. rewrite Eff in Hgo. injection Hgo as <- <-. exists pre, mid, (s :: r).
+    destruct (N.eq_dec (byte_at s 0) 0) as [E0|E0].
+    + rewrite (go_cons_end s r num ff nf i E0), Eff in Hgo. injection Hgo as <- <-. exists pre, mid, (s :: r).
       split; [reflexivity|]. split; [reflexivity|]. split; [assumption|]. split; [assumption|]. split; [assumption|].
       split; [assumption|]. split; [right; exists s, r; split; [reflexivity|exact E0]|assumption].
-    + apply N.eqb_neq in E0. destruct (byte_at s 0 =? 229) eqn:E5.
-      * apply N.eqb_eq in E5. rewrite Eff in Hgo. unfold u32_add, u32_max in Hgo.
-        replace (nf + 1 <=? 4294967295) with true in Hgo by (symmetry; apply N.leb_le; lia). cbn [bind] in Hgo.
+    + destruct (N.eq_dec (byte_at s 0) 229) as [E5|E5].
+      * rewrite (go_cons_del s r num ff nf i E5) in Hgo by lia. rewrite Eff in Hgo.
         assert (pre ++ mid ++ s :: r = pre ++ (mid ++ [s]) ++ r) as Eapp by (rewrite <- !app_assoc; reflexivity).
         assert (Forall isdel (mid ++ [s])) as Hmid' by (apply Forall_app; split; [assumption|constructor; [exact E5|constructor]]).
         destruct (nf + 1 =? num) eqn:En.
         -- apply N.eqb_eq in En. injection Hgo as <- <-. exists pre, (mid ++ [s]), r.
            split; [exact Eapp|]. split; [reflexivity|]. split; [assumption|]. split; [assumption|]. split; [assumption|].
            split; [rewrite len_N_app, len_N_cons, len_N_nil; lia|]. rewrite removelast_last. exact Hnr.
-        -- apply N.eqb_neq in En.
-           replace (i + 1 <=? 4294967295) with true in Hgo by (symmetry; apply N.leb_le; lia). cbn [bind] in Hgo.
-           rewrite Eapp. apply (IH pre (mid ++ [s]) (len_N pre) (nf + 1) (i + 1) ae p); try assumption.
+        -- apply N.eqb_neq in En. rewrite Eapp.
+           apply (IH pre (mid ++ [s]) (len_N pre) (nf + 1) (i + 1) ae p).
+           ++ assumption.
+           ++ assumption.
            ++ rewrite len_N_app, len_N_cons, len_N_nil. lia.
-           ++ rewrite app_assoc. rewrite <- app_assoc. apply no_del_run_snoc_del; try assumption. lia.
+           ++ assumption.
+           ++ apply no_del_run_snoc_del; try assumption. lia.
            ++ intros _. reflexivity.
            ++ rewrite len_N_app, len_N_cons, len_N_nil. lia.
            ++ rewrite len_N_app, len_N_cons, len_N_nil. lia.
            ++ rewrite <- Eapp. exact Hbound.
-      * apply N.eqb_neq in E5. unfold u32_add, u32_max in Hgo.
-        replace (i + 1 <=? 4294967295) with true in Hgo by (symmetry; apply N.leb_le; lia). cbn [bind] in Hgo.
+           ++ exact Hgo.
+      * rewrite (go_cons_used s r num ff nf i E0 E5) in Hgo by lia.
         assert (pre ++ mid ++ s :: r = (pre ++ mid ++ [s]) ++ [] ++ r) as Eapp by (rewrite <- !app_assoc; reflexivity).
         rewrite Eapp. apply (IH (pre ++ mid ++ [s]) [] ff 0 (i + 1) ae p).
         -- apply Forall_app. split; [assumption|]. apply Forall_app. split; [apply Forall_isdel_nonend; assumption|].
@@ -179,6 +205,43 @@ Proof.
 Qed.
 
 (* ---------------------------------------------------------------- the theorems *)
+Lemma go_first_from_start num ss ae ff : 1 <= num -> len_N ss < 134217728 -> find_free_go ss num 0 0 0 = Ok (ae, ff) ->
+  exists pre mid post, ss = pre ++ mid ++ post /\ len_N pre = ff /\
+    Forall nonend pre /\ Forall isdel mid /\ boundary pre /\
+    (if ae then len_N mid < num /\ endhead post /\ no_del_run (pre ++ mid) num
+     else len_N mid = num /\ no_del_run (pre ++ removelast mid) num).
+Proof.
+  intros Hn Hb Ego. apply (find_free_go_first num Hn ss [] [] 0 0 0 ae ff).
+  - constructor.
+  - constructor.
+  - rewrite len_N_nil. lia.
+  - left. reflexivity.
+  - intros a b c Ea Hd. destruct a; [|discriminate]. destruct b; [rewrite len_N_nil; lia|discriminate].
+  - intros C. congruence.
+  - reflexivity.
+  - reflexivity.
+  - exact Hb.
+  - exact Ego.
+Qed.
+
+Lemma find_free_entries_eq k ss num ae ff : find_free_go ss num 0 0 0 = Ok (ae, ff) -> ff * 32 <= 4294967295 ->
+  find_free_entries k ss num =
+  if ae && is_fixed k && (len_N ss * 32 <? ff * 32 + num * 32) then Err ENotEnoughSpace else Ok ff.
+Proof.
+  intros E Hle. unfold find_free_entries. rewrite E. cbn [bind]. unfold u32_mul, DIR_ENTRY_SIZE, u32_max.
+  apply N.leb_le in Hle. rewrite Hle. reflexivity.
+Qed.
+
+Lemma find_free_go_total ss num : 1 <= num -> len_N ss < 134217728 -> exists ae ff, find_free_go ss num 0 0 0 = Ok (ae, ff).
+Proof.
+  intros Hn Hb.
+  assert (len_N (@nil (list N)) < num) as H1 by (rewrite len_N_nil; lia).
+  assert ((@nil (list N)) <> [] -> 0 = len_N (@nil (list N))) as H2 by (intros C; congruence).
+  destruct (find_free_go_spec num ss [] [] 0 0 0 (Forall_nil _) (Forall_nil _) H1 H2 eq_refl eq_refl Hb)
+    as [ae [p [pre [mid [post [E _]]]]]].
+  exists ae, p. exact E.
+Qed.
+
 (* first fit: the position returned is the start of the FIRST run of [num] deleted slots, or - when there is none before
    the end of the used part - the start of the deleted slots directly in front of the end marker *)
 Theorem find_free_entries_first_fit k ss num p : 1 <= num -> len_N ss < 134217728 ->
@@ -187,67 +250,56 @@ Theorem find_free_entries_first_fit k ss num p : 1 <= num -> len_N ss < 13421772
     ((len_N mid = num /\ no_del_run (pre ++ removelast mid) num) \/
      (len_N mid < num /\ endhead post /\ no_del_run (pre ++ mid) num /\ (is_fixed k = true -> p + num <= len_N ss))).
 Proof.
-  intros Hn Hb H. unfold find_free_entries in H.
-  destruct (find_free_go ss num 0 0 0) as [[ae ff]|e| |] eqn:Ego; cbn [bind] in H; try discriminate.
-  destruct (find_free_go_first num Hn ss [] [] 0 0 0 ae ff) as (pre & mid & post & E & Hp & Hpre & Hmid & Hbd & Hcase);
-    try (constructor; fail); try reflexivity; try exact Ego.
-  - rewrite len_N_nil. lia.
-  - left. reflexivity.
-  - intros a b c Ea Hd. destruct a; [|discriminate]. destruct b; [rewrite len_N_nil; lia|discriminate].
-  - intros C. congruence.
-  - exact Hb.
-  - cbn [app] in E. unfold u32_mul, DIR_ENTRY_SIZE, u32_max in H.
-    assert (ff <= len_N ss) as Hle by (rewrite E, <- Hp, !len_N_app; lia).
-    replace (ff * 32 <=? 4294967295) with true in H by (symmetry; apply N.leb_le; lia). cbn [bind] in H.
-    exists pre, mid, post. destruct ae.
-    + destruct Hcase as (Hl & He & Hnr). cbn [andb] in H.
-      destruct (is_fixed k) eqn:Ek; cbn [andb] in H.
-      * destruct (len_N ss * 32 <? ff * 32 + num * 32) eqn:Ec; [discriminate|]. apply N.ltb_ge in Ec.
-        injection H as <-. repeat split; try assumption. right. repeat split; try assumption. intros _. lia.
-      * injection H as <-. repeat split; try assumption. right. repeat split; try assumption. intros C; discriminate.
-    + destruct Hcase as (Hl & Hnr). cbn [andb] in H. injection H as <-. repeat split; try assumption. left. split; assumption.
+  intros Hn Hb H. destruct (find_free_go_total ss num Hn Hb) as (ae & ff & Ego).
+  destruct (go_first_from_start num ss ae ff Hn Hb Ego) as (pre & mid & post & E & Hp & Hpre & Hmid & Hbd & Hcase).
+  assert (ff <= len_N ss) as Hle by (rewrite E, <- Hp, !len_N_app; lia).
+  rewrite (find_free_entries_eq k ss num ae ff Ego) in H by lia.
+  exists pre, mid, post. destruct ae.
+  - destruct Hcase as (Hl & He & Hnr). cbn [andb] in H. destruct (is_fixed k) eqn:Ek; cbn [andb] in H.
+    + destruct (len_N ss * 32 <? ff * 32 + num * 32) eqn:Ec; [discriminate|]. apply N.ltb_ge in Ec.
+      injection H as <-. split; [exact E|]. split; [exact Hp|]. split; [assumption|]. split; [assumption|]. split; [assumption|].
+      right. split; [assumption|]. split; [assumption|]. split; [assumption|]. intros _. lia.
+    + injection H as <-. split; [exact E|]. split; [exact Hp|]. split; [assumption|]. split; [assumption|]. split; [assumption|].
+      right. split; [assumption|]. split; [assumption|]. split; [assumption|]. intros C. discriminate.
+  - destruct Hcase as (Hl & Hnr). cbn [andb] in H. injection H as <-.
+    split; [exact E|]. split; [exact Hp|]. split; [assumption|]. split; [assumption|]. split; [assumption|].
+    left. split; assumption.
 Qed.
 
 (* the refusal: NotEnoughSpace comes only from a fixed root in which no run of [num] free slots remains *)
 Theorem find_free_entries_nospace_no_room k ss num : 1 <= num -> len_N ss < 134217728 ->
   find_free_entries k ss num = Err ENotEnoughSpace -> is_fixed k = true /\ ~ has_room ss num.
 Proof.
-  intros Hn Hb H. unfold find_free_entries in H.
-  destruct (find_free_go ss num 0 0 0) as [[ae ff]|e| |] eqn:Ego; cbn [bind] in H; try discriminate.
-  2:{ exfalso. (* find_free_go itself never fails below the bound *)
-      destruct (find_free_go_spec num ss [] [] 0 0 0) as (ae & p & _ & _ & _ & E & _); try (constructor; fail); try reflexivity.
-      - rewrite len_N_nil. lia.
-      - intros C. congruence.
-      - exact Hb.
-      - rewrite Ego in E. discriminate. }
-  destruct (find_free_go_first num Hn ss [] [] 0 0 0 ae ff) as (pre & mid & post & E & Hp & Hpre & Hmid & Hbd & Hcase);
-    try (constructor; fail); try reflexivity; try exact Ego.
-  - rewrite len_N_nil. lia.
-  - left. reflexivity.
-  - intros a b c Ea Hd. destruct a; [|discriminate]. destruct b; [rewrite len_N_nil; lia|discriminate].
-  - intros C. congruence.
-  - exact Hb.
-  - cbn [app] in E. unfold u32_mul, DIR_ENTRY_SIZE, u32_max in H.
-    assert (ff <= len_N ss) as Hle by (rewrite E, <- Hp, !len_N_app; lia).
-    replace (ff * 32 <=? 4294967295) with true in H by (symmetry; apply N.leb_le; lia). cbn [bind] in H.
-    destruct ae; [|cbn [andb] in H; discriminate]. cbn [andb] in H.
-    destruct (is_fixed k) eqn:Ek; cbn [andb] in H; [|discriminate].
-    destruct (len_N ss * 32 <? ff * 32 + num * 32) eqn:Ec; [|discriminate]. apply N.ltb_lt in Ec.
-    split; [reflexivity|]. destruct Hcase as (Hl & He & Hnr).
-    assert (len_N mid + len_N post < num) as Hroom by (rewrite E, !len_N_app in Ec; lia).
-    assert (Forall nonend (pre ++ mid)) as Hpm by (apply Forall_app; split; [assumption|apply Forall_isdel_nonend; assumption]).
-    intros [(a & b & c & Ea & Ha & Hdb & Hlen)|(a & b & c & Ea & Ha & Hdb & Hec & Hlen)].
-    + (* a run of deleted slots: it lies before the first end marker, i.e. inside pre ++ mid *)
-      assert (Forall nonend (a ++ b)) as Hab by (apply Forall_app; split; [assumption|apply Forall_isdel_nonend; assumption]).
-      destruct (prefix_before_end (a ++ b) c (pre ++ mid) post) as (c' & Ec'); try assumption.
-      { rewrite <- !app_assoc. rewrite <- Ea, <- E. reflexivity. }
-      pose proof (Hnr a b c' ltac:(rewrite Ec', <- app_assoc; reflexivity) Hdb). lia.
-    + (* the tail: a ++ b is the part before the first end marker, b a deleted suffix of it *)
-      assert (Forall nonend (a ++ b)) as Hab by (apply Forall_app; split; [assumption|apply Forall_isdel_nonend; assumption]).
-      destruct (split_first_end (a ++ b) c (pre ++ mid) post) as (E1 & E2); try assumption.
-      { rewrite <- !app_assoc. rewrite <- Ea, <- E. reflexivity. }
-      subst c. assert (len_N b <= len_N mid); [|lia].
-      destruct Hbd as [->|(q & x & -> & Hx)].
-      * cbn [app] in E1. apply (f_equal (@length _)) in E1. rewrite app_length in E1. unfold len_N. lia.
-      * rewrite <- app_assoc in E1. cbn [app] in E1. exact (del_suffix_le q x mid a b (eq_sym E1) Hdb Hx).
+  intros Hn Hb H. destruct (find_free_go_total ss num Hn Hb) as (ae & ff & Ego).
+  destruct (go_first_from_start num ss ae ff Hn Hb Ego) as (pre & mid & post & E & Hp & Hpre & Hmid & Hbd & Hcase).
+  assert (ff <= len_N ss) as Hle by (rewrite E, <- Hp, !len_N_app; lia).
+  rewrite (find_free_entries_eq k ss num ae ff Ego) in H by lia.
+  destruct ae; [|cbn [andb] in H; discriminate]. cbn [andb] in H.
+  destruct (is_fixed k) eqn:Ek; cbn [andb] in H; [|discriminate].
+  destruct (len_N ss * 32 <? ff * 32 + num * 32) eqn:Ec; [|discriminate]. apply N.ltb_lt in Ec.
+  split; [reflexivity|]. destruct Hcase as (Hl & He & Hnr).
+  assert (len_N mid + len_N post < num) as Hroom by (rewrite E, !len_N_app in Ec; lia).
+  assert (Forall nonend (pre ++ mid)) as Hpm by (apply Forall_app; split; [assumption|apply Forall_isdel_nonend; assumption]).
+  intros [(a & b & c & Ea & Ha & Hdb & Hlen)|(a & b & c & Ea & Ha & Hdb & Hec & Hlen)].
+  - (* a run of deleted slots: it lies before the first end marker, i.e. inside pre ++ mid *)
+    assert (Forall nonend (a ++ b)) as Hab by (apply Forall_app; split; [assumption|apply Forall_isdel_nonend; assumption]).
+    destruct (prefix_before_end (a ++ b) c (pre ++ mid) post) as (c' & Ec'); try assumption.
+    { rewrite <- !app_assoc. rewrite <- Ea, <- E. reflexivity. }
+    assert (len_N b < num) as Hlt; [|lia].
+    apply (Hnr a b c'); [rewrite Ec', <- app_assoc; reflexivity|exact Hdb].
+  - (* the tail: a ++ b is the part before the first end marker, b a deleted suffix of it *)
+    assert (Forall nonend (a ++ b)) as Hab by (apply Forall_app; split; [assumption|apply Forall_isdel_nonend; assumption]).
+    destruct (split_first_end (a ++ b) c (pre ++ mid) post) as (E1 & E2); try assumption.
+    { rewrite <- !app_assoc. rewrite <- Ea, <- E. reflexivity. }
+    subst c. assert (len_N b <= len_N mid) as Hbm; [|lia].
+    destruct Hbd as [->|(q & x & -> & Hx)].
+    + cbn [app] in E1. apply (f_equal (@length _)) in E1. rewrite app_length in E1. unfold len_N. lia.
+    + rewrite <- app_assoc in E1. cbn [app] in E1. exact (del_suffix_le q x mid a b (eq_sym E1) Hdb Hx).
+Qed.
+
+(* a directory that can grow is never refused here *)
+Theorem find_free_entries_chained_never_nospace cs ss num : 1 <= num -> len_N ss < 134217728 ->
+  find_free_entries (Chained cs) ss num <> Err ENotEnoughSpace.
+Proof.
+  intros Hn Hb H. destruct (find_free_entries_nospace_no_room (Chained cs) ss num Hn Hb H) as (C & _). discriminate.
 Qed.
